@@ -23,6 +23,13 @@ chk("C04","crdtx","model_checking",
     "Same state space as C01; invariant in every state on the changed node: every stored block hashes to its key, every head/link of every merged commit resolves locally, height = 1 + max parent height, recorded heads (and their heights) = exactly the maximal merged commits.",
     E1_NOTE, "explicit-state model checking of the implementation, structural invariant on raw store content", "§3 E1, §4 C04")
 
+chk("C03","crdtx + linear-history enumerator","model_checking",
+    "Every local linear history of length <= H over {set, null, two increments, delete}: in every state every commit of the history is queried by cid and must equal the ordinary query recorded right after that commit, and the head must equal the current read; every state of the 2-replica E1 space (branching/merged histories) queries every merged commit against the reference state of its ancestor closure; a GraphQL subscription opened before each maximal history must push, per commit, the value of the ordinary query after that commit. Requests run under a hang guard.",
+    E1_NOTE + " Subscription results are awaited with a 60 s liveness deadline whose expiry is a harness error, never a verdict.", "explicit-state enumeration of histories on the implementation with a differential oracle (versioned read vs recorded ordinary read vs reference model)", "§4 C03")
+chk("C05","faultx","fault_enumeration",
+    "For every prior state (BFS to depth D over the alphabet), every mutating operation (collection API, GraphQL mutations incl. multi-document and upsert, merges of remote commits, index create/drop, schema add/patch, import) and every storage call the operation issues (named by kind/key/occurrence) the operation is re-run with that call failing (I/O error; additionally ErrTxnConflict at commit): error => store (minus unreachable blocks), logical dump and in-memory probe requests unchanged and no update event; success => store, dump and events identical to the fault-free run.",
+    "trusted: the store's own commit atomicity (badger's contract, modelled by vkv); one fault per run; faults inside the ACP engine's store and the versioned fetcher's transient store are not injected; schema/index operations get a fresh DB object per run.", "exhaustive single-fault enumeration over every storage call of every operation on the real code", "§3 E2, §4 C05")
+
 ALL = [f"C{i:02d}" for i in range(1, 21)]
 NA_REASON = "check not built yet in this round (work in progress; see DESIGN.md §4 for the planned exhaustive check)"
 
@@ -35,7 +42,9 @@ def main():
                "baseline_off_cmd": "cd /repo && GOFLAGS=-mod=mod go test -json -vet=off -count=1 -timeout 25m ./...",
                "source_commits": [h.split()[0] for h in hooks], "add_only": True},
      "engines": [
-       {"name":"crdtx","path":"harness/crdtx","serves_properties":["C01","C02","C04"],"kind_free_text":"explicit-state BFS over real replicas on a snapshotable store device"},
+       {"name":"crdtx","path":"harness/crdtx","serves_properties":["C01","C02","C03","C04"],"kind_free_text":"explicit-state BFS over real replicas on a snapshotable store device"},
+       {"name":"faultx","path":"harness/faultx","serves_properties":["C05"],"kind_free_text":"single-fault enumeration of every storage call of every operation"},
+       {"name":"vkv","path":"harness/vkv","serves_properties":[],"kind_free_text":"snapshotable transactional store device; bound to badger by `vcheck CONFORM` (exhaustive differential run) in setup"},
      ],
      "checks": [CHECKS[p] for p in ALL if p in CHECKS],
      "not_applicable": [{"property_id":p,"reason":NA_REASON} for p in ALL if p not in CHECKS],
